@@ -58,7 +58,7 @@ def ret(code=0, msg='', pay=None, ek='', det=0):
 
 def c01(tier, rng):
     from . import gen2
-    out = gen2.refused_write_then_calls('C01')
+    out = gen2.refused_write_then_calls('C01') + gen2.no_metadata_at_all('C01')
     # (a) k callers, every handler completion order, responses delivered one by one or all at once
     kmax = 3 if tier == 'quick' else 4
     for k in range(1, kmax + 1):
